@@ -5,6 +5,7 @@ import (
 	"sort"
 	"strings"
 
+	verifseam "github.com/josephburnett/jd/v2/verif/seam"
 	"github.com/josephburnett/jd/v2/verif/simos"
 )
 
@@ -187,7 +188,7 @@ func compareToModel(s Session, r *sessRun, i int, pre *simos.FS) *Violation {
 // for this session, given what the first process did.
 func roundTripPromised(s Session, r *sessRun) (bool, *Val, string) {
 	rt := s.RT
-	if rt == nil || len(r.Res) < 2 {
+	if rt == nil || len(r.Res) < 2 || rt.Arrays == "skip" {
 		return false, nil, ""
 	}
 	if r.Res[0].Code != 0 && r.Res[0].Code != 1 {
@@ -430,6 +431,23 @@ func checkC14(c C14Case) (*Violation, []string, *caseInfo) {
 			}
 			if ok, why := fsEqual(alt.FSPost[j], base.FSPost[j]); !ok {
 				return viol14("xbin", s.Procs[j], Expect{}, "the two binaries leave different files on %q: %s", s.Procs[j].Argv, why), alt.Log, info
+			}
+		}
+		return nil, alt.Log, info
+
+	case "map-order":
+		// the same session with every map range inside jd reversed: nothing
+		// observable may depend on Go's map iteration order
+		verifseam.Hook = func(site string, n int) (int, uint64) { return verifseam.Reverse, 0 }
+		alt := runSession(s, fsFromFiles(s.Files, s.Dirs), false, false)
+		verifseam.Hook = nil
+		info.fill(s, alt, c.V, nil)
+		for j := range base.Res {
+			if ok, why := sameOutcome(base.Res[j], alt.Res[j]); !ok {
+				return viol14("map-order", s.Procs[j], Expect{}, "process %d behaves differently when Go's map iteration order is reversed: %s; argv=%q", j, why, s.Procs[j].Argv), alt.Log, info
+			}
+			if ok, why := fsEqual(alt.FSPost[j], base.FSPost[j]); !ok {
+				return viol14("map-order", s.Procs[j], Expect{}, "process %d leaves different files when Go's map iteration order is reversed: %s; argv=%q", j, why, s.Procs[j].Argv), alt.Log, info
 			}
 		}
 		return nil, alt.Log, info
